@@ -374,7 +374,11 @@ class CompiledChemicals(Chemicals):
                 'set_alias') + self.IDs
     
     def __reduce__(self):
-        return CompiledChemicals, (self.tuple,)
+        index = self._index
+        IDs = self.IDs
+        groups = [(name, [IDs[i] for i in index[name]], composition) 
+                  for name, composition in self._group_mol_compositions.items()]
+        return unpickle_compiled_chemicals, (self.tuple, groups)
     
     def compile(self, skip_checks=False):
         """Do nothing, CompiledChemicals objects are already compiled.""" 
@@ -1213,3 +1217,11 @@ class CompiledChemicals(Chemicals):
     
     def __repr__(self):
         return f"{type(self).__name__}([{', '.join(self.IDs)}])"
+
+
+def unpickle_compiled_chemicals(chemicals, groups=()):
+    self = CompiledChemicals(chemicals)
+    for name, IDs, composition in groups: # Chemical groups are not derived from the chemicals
+        if name not in self._group_mol_compositions: 
+            self.define_group(name, IDs, composition)
+    return self
